@@ -6,6 +6,7 @@ meaningful independent of run-time generated ids; an op whose target does not ex
 
 ops
   ['state', kind, handle, spec, iface]          kind in metric|alert|component|operational|rt ; iface classic|entity
+  ['state_multi', kind, [[handle, spec], ...], iface]      several states of one kind in one state transaction
   ['ctx_new', descr_handle, state_handle, spec, assoc, iface]
   ['ctx_update', state_handle, spec, assoc|None, iface]
   ['ctx_delete', state_handle]                  (entity interface: the state is taken out of the entity and written)
@@ -89,6 +90,10 @@ class Inventory:
             'AlertSignalDescriptorContainer')]
         self.updatable = [(h, c) for h, c, p in self.descriptors if not c.endswith('ScoDescriptorContainer')]
         self.location_descriptors = [h for h, c in self.context_descriptors if 'Location' in c]
+        # context descriptors (with all their context states) can be deleted and created again, too; the location
+        # context stays (set_location needs it)
+        self.deletable_context = [h for h, c in self.context_descriptors if 'Location' not in c]
+        self.deletable += self.deletable_context[:2]
         self.pool = self._mk_pool()
 
     def _mk_pool(self):
@@ -138,6 +143,10 @@ def st_op(inv: Inventory, kinds=None, descriptor_ops=True, context_ops=True, mul
             opts.append(st.sampled_from(inv.states[kind]).flatmap(
                 lambda hc, kind=kind: st.tuples(st.just('state'), st.just(kind), st.just(hc[0]), _state_spec(hc[1]),
                                                 IFACE).map(list)))
+    for kind in (kinds or STATE_KINDS):
+        if len(inv.states[kind]) >= 2:  # noqa: PLR2004  several states of one kind in one transaction, any order
+            one = st.sampled_from(inv.states[kind]).flatmap(lambda hc: st.tuples(st.just(hc[0]), _state_spec(hc[1])).map(list))
+            opts.append(st.tuples(st.just('state_multi'), st.just(kind), st.lists(one, min_size=2, max_size=4), IFACE).map(list))
     if descriptor_ops:
         # state ops on pool metrics (exist only after creation; skipped otherwise)
         pool_metrics = [(h, c) for h, c, p in inv.pool if 'Metric' in c]
@@ -168,6 +177,8 @@ def st_op(inv: Inventory, kinds=None, descriptor_ops=True, context_ops=True, mul
             opts.append(st.tuples(st.just('multi'), st.lists(st_multi_subop(inv), min_size=2, max_size=4)).map(list))
     opts.append(st.tuples(st.just('empty'), st.sampled_from(['metric', 'alert', 'context', 'descriptor'])).map(list))
     holdable = [hc for kind in (kinds or STATE_KINDS) for hc in inv.states[kind]]
+    if context_ops:
+        holdable = holdable + inv.context_descriptors[:3] * 3  # (context descriptor handle, its state class)
     if holdable and kw_hold:
         opts.append(st.tuples(st.just('hold'), st.integers(0, 2), st.sampled_from([h for h, _ in holdable])).map(list))
         opts.append(st.sampled_from(holdable).flatmap(lambda hc: st.tuples(
@@ -279,8 +290,16 @@ def st_block(inv: Inventory, **kw):
                                   (['state', _kind_of_cls(hc[1]), hc[0], t[1], 'classic'] if t[4]
                                    else ['write_held', t[0], t[1]]),
                                   ['write_held', t[0], t[2]], ['write_held', t[0], t[3]]])))
-        # one object through both interfaces: entity write first, then descriptor + state through the classic getters
         by_handle = {h: c for h, c, p in inv.descriptors}
+        # a context entity is obtained, its descriptor (or a state) changes meanwhile, then the stale entity is written
+        if kw.get('context_ops', True) and inv.context_descriptors and kw.get('kw_hold', True):
+            blocks.append(st.sampled_from(inv.context_descriptors).flatmap(lambda hc: st.tuples(
+                st.integers(0, 2), _state_spec(hc[1]), _state_spec(hc[1]), _state_spec(hc[1]), IFACE, st.booleans(),
+                T.instance_spec(T.all_classes()[by_handle[hc[0]]]), IFACE).map(
+                lambda t, hc=hc: ([['ctx_new', hc[0], 'vf_ctx_2', t[1], 'No', t[4]]] if t[5] else []) + [
+                    ['hold', t[0], hc[0]], ['descr_update', hc[0], t[6], t[7]],
+                    ['write_held', t[0], t[2]], ['write_held', t[0], t[3]]])))
+        # one object through both interfaces: entity write first, then descriptor + state through the classic getters
         mixed = [(h, sc) for kind in ('metric', 'alert', 'component') for h, sc in inv.states[kind][:8] if h in by_handle]
         if mixed and kw.get('multi', True):
             blocks.append(st.sampled_from(mixed).flatmap(lambda hs: st.tuples(
@@ -295,6 +314,15 @@ def st_block(inv: Inventory, **kw):
                 T.instance_spec(T.all_classes()[by_handle[hc[0]]]), IFACE, st.lists(op, max_size=2)).map(
                 lambda t, hc=hc: [['ctx_new', hc[0], 'vf_ctx_0', t[0], 'Dis', t[3]], ['ctx_new', hc[0], 'vf_ctx_1', t[1], t[2], t[4]],
                                   *t[7], ['descr_update', hc[0], t[5], t[6]]])))
+        # a context descriptor that owns several context states is deleted, created again and gets the states again
+        if kw.get('context_ops', True) and inv.deletable_context:
+            ctxd = [hc for hc in inv.context_descriptors if hc[0] in inv.deletable_context]
+            blocks.append(st.sampled_from(ctxd).flatmap(lambda hc: st.tuples(
+                st.lists(st.tuples(_state_spec(hc[1]), st.sampled_from(['Assoc', 'Dis', 'No']), IFACE), min_size=2, max_size=3),
+                IFACE, IFACE, st.lists(op, max_size=2), st.booleans()).map(
+                lambda t, hc=hc: [['ctx_new', hc[0], f'vf_ctx_{i}', x[0], x[1], x[2]] for i, x in enumerate(t[0])] + [
+                    ['descr_delete', hc[0], t[1]], *t[3], ['descr_recreate', hc[0], t[2]]] + (
+                    [['ctx_new', hc[0], 'vf_ctx_0', t[0][0][0], 'No', t[0][0][2]]] if t[4] else []))))
         rel = st_related_multi(inv)
         if rel is not None and kw.get('multi', True):
             blocks.append(rel.map(lambda o: [o]))
@@ -320,12 +348,16 @@ class CrashCtl:
         self.count = 0
         self.crashed = False
         self.modified = False
+        self.handed = []
 
     def tick(self):
         if self.crash_at is not None and self.count == self.crash_at:
             self.crashed = True
             raise Crash(f'crash point {self.count}')
         self.count += 1
+
+
+GETTERS = ('get_state', 'get_descriptor', 'get_context_state', 'mk_context_state')
 
 
 class MgrProxy:
@@ -343,6 +375,8 @@ class MgrProxy:
             def wrapper(*a, **kw):
                 r = attr(*a, **kw)
                 ctl.modified = True
+                if name in GETTERS and r is not None:
+                    ctl.handed.append(r)  # an object the transaction handed out to the application
                 ctl.tick()
                 return r
             return wrapper
@@ -430,9 +464,38 @@ class Interp:
                 mgr.write_entity(ent)
         info['touched'].add(handle)
 
+    def _op_state_multi(self, op, info):
+        """Several states of one kind in one state transaction, in the given order."""
+        _, kind, items, iface = op
+        todo = []
+        for handle, spec in items:
+            state = self.mdib.states.descriptor_handle.get_one(handle, allow_none=True)
+            if state is not None and T.cls_name(type(state)) == spec['cls'] and handle not in [t[0] for t in todo]:
+                todo.append((handle, spec))
+        if len(todo) < 2:  # noqa: PLR2004
+            raise Skip
+        with self._tx(kind) as mgr:
+            for handle, spec in todo:
+                if iface == 'classic':
+                    self._apply(mgr.get_state(handle), spec, PROTECTED)
+                else:
+                    ent = self.mdib.entities.by_handle(handle)
+                    self._apply(ent.state, spec, PROTECTED)
+                    mgr.write_entity(ent)
+                info['touched'].add(handle)
+
     def _set_assoc(self, mgr, state, assoc):
+        """Change the association the way an application does (BICEPS): a state that becomes associated / disassociated
+        also gets its binding / unbinding MDIB version (the version this transaction will commit)."""
         pm = self.mdib.data_model.pm_types
-        state.ContextAssociation = pm.ContextAssociation(assoc)
+        new = pm.ContextAssociation(assoc)
+        if new != state.ContextAssociation:
+            if new == pm.ContextAssociation.ASSOCIATED:
+                state.BindingMdibVersion = self.mdib.mdib_version + 1
+                state.UnbindingMdibVersion = None
+            elif new == pm.ContextAssociation.DISASSOCIATED:
+                state.UnbindingMdibVersion = self.mdib.mdib_version + 1
+        state.ContextAssociation = new
 
     def _op_ctx_new(self, op, info):
         _, dhandle, shandle, spec, assoc, iface = op
@@ -516,7 +579,7 @@ class Interp:
         """Obtain an entity now and keep it (it may be stale when it is written later). No transaction."""
         _, slot, handle = op
         ent = self.mdib.entities.by_handle(handle)
-        if ent is None or ent.is_multi_state:
+        if ent is None:
             raise Skip
         self.held[slot] = ent
         raise Skip  # nothing committed: counts as not applied
@@ -524,7 +587,11 @@ class Interp:
     def _op_write_held(self, op, info):
         _, slot, spec = op
         ent = self.held.get(slot)
-        if ent is None or self._descr(ent.handle) is None or T.cls_name(type(ent.state)) != spec['cls']:
+        if ent is None or self._descr(ent.handle) is None:
+            raise Skip
+        if ent.is_multi_state:
+            return self._write_held_context(ent, slot, spec, info)
+        if T.cls_name(type(ent.state)) != spec['cls']:
             raise Skip
         kind = kind_of_state(ent.state)
         if kind is None:
@@ -533,6 +600,26 @@ class Interp:
         with self._tx(kind) as mgr:
             mgr.write_entity(ent)
         info['touched'].add(ent.handle)
+
+    def _write_held_context(self, ent, slot, spec, info):
+        """A (possibly stale) context entity is written: its first state that still exists is changed, or - if it has
+        none - a new state is added to it."""
+        state_cls = self.mdib.data_model.get_state_container_class(ent.descriptor.STATE_QNAME)
+        if T.cls_name(state_cls) != spec['cls']:
+            raise Skip
+        existing = [h for h in sorted(ent.states) if self.mdib.context_states.handle.get_one(h, allow_none=True) is not None]
+        if existing:
+            shandle = existing[0]
+            st_ = ent.states[shandle]
+        else:
+            shandle = f'vf_ctx_held_{slot}'
+            if shandle in ent.states or self.mdib.context_states.handle.get_one(shandle, allow_none=True) is not None:
+                raise Skip
+            st_ = ent.new_state(shandle)
+        self._apply(st_, spec, PROTECTED)
+        with self._tx('context') as mgr:
+            mgr.write_entity(ent, [shandle])
+        info['touched'].add(shandle)
 
     def _op_ctx_multi(self, op, info):
         """Several context states (possibly of one descriptor) updated in one transaction (classic interface)."""
@@ -647,6 +734,15 @@ class Interp:
             raise Skip
         if parent in mgr.descriptor_updates and mgr.descriptor_updates[parent].new is None:
             raise Skip
+        if descr.is_context_descriptor:  # comes back without context states
+            if iface == 'classic':
+                mgr.add_descriptor(descr)
+            else:
+                from sdc11073.mdib import mdibbase
+                mgr.write_entity(mdibbase.MultiStateEntity(self.mdib, descr, []))
+            created_in_tx.add(handle)
+            info['created'].add(handle)
+            return
         state = copy.deepcopy(states[0]) if states else self.mdib.data_model.mk_state_container(descr)
         state.descriptor_container = descr
         if iface == 'classic':
